@@ -866,16 +866,23 @@ def _analyze_directory_for_import(root, project, schema):
         raise TypeError("The schema variable must be None, callable, or a string.")
 
     # Determine the data space mapping from directories at root to project jobs.
+    # The complete mapping is validated before the first copy executor is
+    # handed out, so that an invalid data space does not get imported partially.
     jobs = set()
+    mappings = []
     for src, job in _crawl_directory_data_space(root, project, schema_function):
         if job in jobs:
             raise StatepointParsingError(
                 "The jobs identified with the given schema function are not unique!"
             )
-        else:
-            jobs.add(job)
-            copy_executor = _CopyFromDirectoryExecutor(src, job)
-            yield src, copy_executor
+        if os.path.exists(job.path):
+            raise DestinationExistsError(job)
+        jobs.add(job)
+        mappings.append((src, job))
+
+    for src, job in mappings:
+        copy_executor = _CopyFromDirectoryExecutor(src, job)
+        yield src, copy_executor
 
 
 class _CopyFromZipFileExecutor:
